@@ -4,7 +4,7 @@ untouched while the batch runs. usage: seedbatch.py <jobs.json> ; jobs = [[name,
 Results: /tmp/seedrun/results.jsonl"""
 import json, os, subprocess, sys, time, re
 
-ROOT = "/tmp/seedrun"
+ROOT = os.environ.get("SEEDROOT", "/tmp/seedrun")
 RESULTS = os.environ.get("RESULTS", ROOT + "/results.jsonl")
 R = lambda *a, **k: subprocess.run(*a, shell=True, text=True, stdout=subprocess.PIPE, stderr=subprocess.STDOUT, **k)
 
